@@ -1,0 +1,80 @@
+//! Verification hook (compiled only with `--cfg html5ever_verif`): a read-only
+//! dump of the complete tree-builder state, destructured exhaustively.
+use super::types::FormatEntry;
+use super::{TreeBuilder, TreeSink};
+
+#[derive(Debug, Clone)]
+pub struct VerifTb<Handle> {
+    pub mode: String,
+    pub orig_mode: Option<String>,
+    pub template_modes: Vec<String>,
+    pub pending_table_text: Vec<(String, String)>,
+    pub quirks_mode: String,
+    pub doc_handle: Handle,
+    pub open_elems: Vec<Handle>,
+    /// None = marker
+    pub active_formatting: Vec<Option<(Handle, String)>>,
+    pub head_elem: Option<Handle>,
+    pub form_elem: Option<Handle>,
+    pub frameset_ok: bool,
+    pub ignore_lf: bool,
+    pub foster_parenting: bool,
+    pub context_elem: Option<Handle>,
+    pub current_line: u64,
+}
+
+impl<Handle, Sink> TreeBuilder<Handle, Sink>
+where
+    Handle: Clone,
+    Sink: TreeSink<Handle = Handle>,
+{
+    pub fn verif_dump(&self) -> VerifTb<Handle> {
+        let TreeBuilder {
+            opts: _,
+            sink: _,
+            mode,
+            orig_mode,
+            template_modes,
+            pending_table_text,
+            quirks_mode,
+            doc_handle,
+            open_elems,
+            active_formatting,
+            head_elem,
+            form_elem,
+            frameset_ok,
+            ignore_lf,
+            foster_parenting,
+            context_elem,
+            current_line,
+        } = self;
+        VerifTb {
+            mode: format!("{:?}", mode.get()),
+            orig_mode: orig_mode.get().map(|m| format!("{m:?}")),
+            template_modes: template_modes.borrow().iter().map(|m| format!("{m:?}")).collect(),
+            pending_table_text: pending_table_text
+                .borrow()
+                .iter()
+                .map(|(s, t)| (format!("{s:?}"), t.to_string()))
+                .collect(),
+            quirks_mode: format!("{:?}", quirks_mode.get()),
+            doc_handle: doc_handle.clone(),
+            open_elems: open_elems.borrow().clone(),
+            active_formatting: active_formatting
+                .borrow()
+                .iter()
+                .map(|e| match e {
+                    FormatEntry::Marker => None,
+                    FormatEntry::Element(h, t) => Some((h.clone(), format!("{t:?}"))),
+                })
+                .collect(),
+            head_elem: head_elem.borrow().clone(),
+            form_elem: form_elem.borrow().clone(),
+            frameset_ok: frameset_ok.get(),
+            ignore_lf: ignore_lf.get(),
+            foster_parenting: foster_parenting.get(),
+            context_elem: context_elem.borrow().clone(),
+            current_line: current_line.get(),
+        }
+    }
+}
